@@ -532,6 +532,29 @@ class Tie:
                                     [c._PTR_F_C_index for c in mine], None))
                 if len(group) > 1:
                     self.n_dflt_generic = getattr(self, "n_dflt_generic", 0) + 1
+        # ---- bind(C) interface attributes: PURE prefix; C-side dereference fields of every parameter
+        for _m, cls, n in fns:
+            if not n.wrap.c:
+                continue
+            ast = n.ast
+            rtm = ast.typemap
+            rsuf = n.result_suffix if getattr(n, "result_suffix", None) is not None else n.generated_suffix
+            hd = [int(ast.get_subprogram() == "function"), int(bool(ast.attrs["pure"])), int(bool(ast.func_const)),
+                  int(rtm.base == "shadow"), it(rtm.sgroup), it(ast.get_indirect_stmt()), it(rsuf)]
+            ints = ",".join(str(it(a.metaattrs["intent"])) for a in ast.params) or "-"
+            real = _scope_get(n.fmtdict, "F_C_pure_clause", "")
+            if "F_C_pure_clause" not in (n.options or {}):
+                self.lines.append("pure %s %s %s" % (lang, ",".join(map(str, hd)), ints))
+                self.expect.append(("pure", "%s:%s" % (tag, n.declgen or n.decl), "1" if real.strip() == "pure" else "0",
+                                    (bool(ast.func_const), bool(ast.attrs["pure"]))))
+            for a in ast.params:
+                fc = n._fmtargs.get(a.name, {}).get("fmtc")
+                if fc is None or not fc.inlocal("c_addr"):
+                    continue
+                self.lines.append("cderef %s - %d" % (lang, int(bool(a.is_indirect()))))
+                self.expect.append(("cderef", "%s:%s:%s" % (tag, n.declgen or n.decl, a.name),
+                                    "%d%d%d" % (int(fc.c_deref == "*"), int(fc.c_member == "->"), int(fc.c_addr == "&")),
+                                    (a.typemap.sgroup, a.get_indirect_stmt())))
         # ---- preprocessor guards of the written generic interfaces: block guard and per-member guard vs the model
         # (members and their node_cpp_if are taken from the real nodes; membership itself is tied below)
         byimpl = {}
@@ -625,6 +648,22 @@ class Tie:
                 if got != exp:
                     bad.append({"kind": kind, "fn": tag, "model": got, "real": exp})
                 ctx.nontrivial(("implied", form, variant, got))
+            elif kind == "pure":
+                self.n_pure = getattr(self, "n_pure", 0) + 1
+                self.pure_dist = getattr(self, "pure_dist", {})
+                k = "%s%s -> %s" % ("const " if extra[0] else "", "+pure" if extra[1] else "", "PURE" if exp == "1" else "not pure")
+                self.pure_dist[k.strip()] = self.pure_dist.get(k.strip(), 0) + 1
+                if got != exp:
+                    bad.append({"kind": kind, "fn": tag, "model_pure": got, "emitted_pure": exp})
+                if exp == "1" or extra[0] or extra[1]:
+                    ctx.nontrivial(("pure", tag))
+            elif kind == "cderef":
+                self.n_cderef = getattr(self, "n_cderef", 0) + 1
+                self.cderef_dist = getattr(self, "cderef_dist", {})
+                k = "%s %s" % extra
+                self.cderef_dist[k] = self.cderef_dist.get(k, 0) + 1
+                if got != exp:
+                    bad.append({"kind": kind, "arg": tag, "model_deref_member_addr": got, "real": exp})
             elif kind == "ifguards":
                 self.n_ifg = getattr(self, "n_ifg", 0) + 1
                 b, ms = got.split(" ")
@@ -669,6 +708,9 @@ class Tie:
                     ctx.nontrivial(("generics", tag))
         return bad, {"assembled_functions": n_asm, "routes": n_route, "generic_tables": n_gen, "generic_clone_routings": getattr(self, "n_gt", 0),
                      "multi_hop_routes": getattr(self, "n_multihop", 0),
+                     "interface_pure_checks": getattr(self, "n_pure", 0), "interface_pure_distribution": getattr(self, "pure_dist", {}),
+                     "c_deref_checks": getattr(self, "n_cderef", 0),
+                     "c_deref_struct_arguments": {k: v for k, v in getattr(self, "cderef_dist", {}).items() if k.startswith("struct")},
                      "generic_interface_guard_checks": getattr(self, "n_ifg", 0), "of_them_with_a_cpp_if": getattr(self, "n_ifg_guarded", 0),
                      "assumed_rank_ranges": getattr(self, "n_ranks", 0),
                      "implied_expressions": getattr(self, "n_implied", 0), "implied_forms": getattr(self, "implied_forms", {}),
